@@ -300,6 +300,27 @@ fn c03_flooding_h1_one() {
     kani::cover!(matches!(&got, Ok(o) if o.iterations >= 1) || got.is_err());
 }
 
+/// layered schedule with exactly two iterations allowed on the 3-row matrix (a sweep order other
+/// than row order shows from the second iteration on), LLRs in [-3, 3]
+#[kani::proof]
+#[kani::unwind(8)]
+fn c03_layered_h2_two() {
+    let mut ch = [0i32; 4];
+    let mut f = [0.0f64; 4];
+    for k in 0..4 {
+        let v: i8 = kani::any();
+        kani::assume(v >= -3 && v <= 3);
+        ch[k] = v as i32;
+        f[k] = v as f64;
+    }
+    let mut d = horizontal_layered::Decoder::new(h2(), ExactMinSum {});
+    let got = d.decode(&f, 2);
+    let want = textbook_layered::<4, 3>(&H2_ROWS, &ch, 2);
+    assert!(got == want);
+    kani::cover!(matches!(&got, Ok(o) if o.iterations == 2));
+    kani::cover!(matches!(&got, Ok(o) if o.iterations <= 1) || got.is_err());
+}
+
 /// quick-tier variants: iteration limit <= 1
 #[kani::proof]
 #[kani::unwind(8)]
